@@ -5,33 +5,56 @@ import XPathV.Lemmas.CmpSem
 /-!
 # C07 — comparison and boolean operators follow XPath 1.0 (property-level theorems)
 
-`Lemmas/C07Base.lean` (same namespace) holds the per-cell theorems and the T0 theorems over the
-regenerated dispatch matrix; `Lemmas/CmpSem.lean` the remaining cells, `and`/`or` with their
-short-circuit, `not()`/`boolean()`/`true()`/`false()`, and the induction over expressions.
+`Lemmas/C07Base.lean` (same namespace) holds the per-cell theorems (`cell_numNum`, `cell_setNum`,
+`cell_numSet`, and — for all six operators since the repairs — `cell_strStr`, `cell_strNum`,
+`cell_numStr`, `cell_setStr`, `cell_strSet`, `cell_setSet`); `Lemmas/CmpSem.lean` the boolean cells
+(`cell_boolAny`, `cell_anyBool`, all six operators), `and`/`or` with their short-circuit,
+`not()`/`boolean()`/`true()`/`false()`, and the induction over expressions.
 
 Fragment `XExp`: number and string literals, predicate-free paths (`PathPF`), the arithmetic
 expressions of C08 (`ArithSem.NumEC`: `+ - * div`, unary minus, `floor`, `ceiling`, `number`,
 `string-length('…')`, `count` over flat paths) and the nested string-function calls of C09
-(`StringFns.StrE`) as number- and string-valued leaves, comparisons `a op b` on the type pairs of
-`pairOK` (all the pairs the property lists, plus number/string and the boolean pairs), `and`, `or`,
-`not()` of an operand of **any** type (boolean, node-set, number, string — `notFunc` was repaired:
-`default: return !asBool(t, v)`), `boolean()`, `true()`, `false()`, parentheses — nested to any
-depth.  Outside (the model — like the Go code — does not follow XPath there, and the property does
-not list them): string-vs-number, relational operators on two strings / two node-sets / a boolean
-with a number or string.
+(`StringFns.StrE`) as number- and string-valued leaves, comparisons `a op b` with **all six
+operators on every pair of the four types** (number, string, node-set, boolean — `C07_every_cell`),
+`and`, `or`, `not()` of an operand of **any** type (boolean, node-set, number, string — `notFunc` was
+repaired: `default: return !asBool(t, v)`), `boolean()`, `true()`, `false()`, parentheses — nested
+to any depth.
+
+Repaired in the Go code, and followed by the model (`cmpStrF`, `cmpM`): `cmpStringStringF` compares
+`stringToNumber` of its operands for `<`, `<=`, `>`, `>=` (it compared the strings byte-wise:
+`'10' < '9'`, `//a[b < c]`); `cmpNodeSetString` and `cmpStringNumeric` hand their operands over in
+order (`//a[b < '9']` tested `'9' < b`; `'5' < 9` computed `9 < 5`); `cmpBooleanAny` /
+`cmpAnyBoolean` compare numbers for the relational operators (`true() < 2` converted `2` with
+`boolean()`).  No type pair and no operator is excluded any more.
 -/
 namespace XPathV.Theorems.C07
 open XPathV XPathV.Model XPathV.Facts XPathV.PathSem XPathV.CmpSem NumAlg
 
 variable {F : Type} [NumAlg F]
 
-/-- **C07, every cell at once**: if the engine's operands are related to the oracle's operands
-(equal atoms; node lists with the same members) and the type pair is one of `pairOK`, the engine's
-comparison is XPath's `compare` -/
-theorem C07_cells (d : Doc) (cop : Spec.CmpOp) (m n : MVal F) (va vb : Spec.Value F)
-    (hm : VRel m va) (hn : VRel n vb) (hk : pairOK cop (vkind va) (vkind vb) = true) :
+/-- **C07, every cell, no exception**: for each of the six operators and every pair of operand
+types (number, string, node-set, boolean — sixteen cells), if the engine's operands are related to
+the oracle's operands (equal atoms; node lists with the same members, in any order and with any
+repetitions), the engine's comparison is XPath's `compare`: existential on node-sets; numbers for
+the relational operators; for `=`/`!=` booleans before numbers before strings. -/
+theorem C07_every_cell (d : Doc) (cop : Spec.CmpOp) (m n : MVal F) (va vb : Spec.Value F)
+    (hm : VRel m va) (hn : VRel n vb) :
     cmpM d cop m n = .ok (Spec.compare d cop va vb) :=
-  cmpM_vrel d cop m n va vb hm hn hk
+  cmpM_vrel d cop m n va vb hm hn
+
+/-- `C07_every_cell` under its former name.  (It used to carry the hypothesis
+`pairOK cop (vkind va) (vkind vb) = true`, a table of admissible type pairs that excluded
+string/number and the relational operators on strings, node-set pairs and booleans beside
+numbers/strings; the repairs of the Go comparators removed every exclusion.) -/
+theorem C07_cells (d : Doc) (cop : Spec.CmpOp) (m n : MVal F) (va vb : Spec.Value F)
+    (hm : VRel m va) (hn : VRel n vb) :
+    cmpM d cop m n = .ok (Spec.compare d cop va vb) :=
+  C07_every_cell d cop m n va vb hm hn
+
+/-- `C07_every_cell` on the oracle's own values (`emb`: the same atoms, the same node list) -/
+theorem C07_every_cell_emb (d : Doc) (cop : Spec.CmpOp) (va vb : Spec.Value F) :
+    cmpM d cop (Theorems.C08.emb va) (Theorems.C08.emb vb) = .ok (Spec.compare d cop va vb) :=
+  cmpM_emb_cell d cop va vb
 
 /-- **C07 at expression level, through the builder**: for every boolean-valued expression of the
 fragment, every well-formed document and valid context node, the plan the builder makes evaluates
@@ -95,25 +118,27 @@ theorem C07_listed_pairs_unconditional {d : Doc} (wf : WF d) (cfg : ECfg) (hns :
   C07_listed_pairs wf cfg hns (PathSem.hashInj_holds wf hattr cfg) c hc regexOk limit sdf e h st o
     hb
 
-/-- a single comparison with the value spelled out: existential on node-sets is `Spec.compare` -/
+/-- a single comparison with the value spelled out: existential on node-sets is `Spec.compare`.
+Operands: number literal, string literal, path — every pair, all six operators (the former
+hypothesis `pairC07 …`, which confined string and node-set pairs to `=`/`!=`, is gone) -/
 theorem C07_comparison_value {d : Doc} (wf : WF d) (cfg : ECfg) (hns : cfg.nsIface = true)
     (hinj : HashInj d cfg) (c : Ref) (hc : validRef d c = true) (regexOk : RegexOk) (limit : Nat)
     (sdf : Bool) (op : String) (cop : Spec.CmpOp) (a b : Ast) (hop : Spec.CmpOp.ofString op = some cop)
-    (ha : Opnd a) (hb : Opnd b) (hk : pairC07 cop (okind a) (okind b) = true)
+    (ha : Opnd a) (hb : Opnd b)
     (st : BState) (o : BOut) (hbd : build regexOk limit true sdf (.oper op a b) {} st = .ok o) :
     ∃ (va vb : Spec.Value F) (ga gb : Option (List (List Ref))),
       Spec.eval (F := F) d a ⟨c, 1, 1⟩ = .ok (.val va ga) ∧
       Spec.eval (F := F) d b ⟨c, 1, 1⟩ = .ok (.val vb gb) ∧
       evalP (F := F) d cfg o.q c = .ok (.bool (Spec.compare d cop va vb)) ∧
       Spec.eval (F := F) d (.oper op a b) ⟨c, 1, 1⟩ = .ok (.val (.bool (Spec.compare d cop va vb)) none) :=
-  build_cmp_sem wf cfg hns hinj c hc regexOk limit sdf op cop a b hop ha hb hk st o hbd
+  build_cmp_sem wf cfg hns hinj c hc regexOk limit sdf op cop a b hop ha hb st o hbd
 
 /-- `C07_comparison_value` without the `HashInj` hypothesis (it is a theorem now: `hashInj_holds`; the side
 condition left is "no element has two attributes with the same prefix, name and value") -/
 theorem C07_comparison_value_unconditional {d : Doc} (wf : WF d) (cfg : ECfg) (hns : cfg.nsIface = true)
     (hattr : AttrTriplesDistinct d) (c : Ref) (hc : validRef d c = true) (regexOk : RegexOk) (limit : Nat)
     (sdf : Bool) (op : String) (cop : Spec.CmpOp) (a b : Ast) (hop : Spec.CmpOp.ofString op = some cop)
-    (ha : Opnd a) (hb : Opnd b) (hk : pairC07 cop (okind a) (okind b) = true)
+    (ha : Opnd a) (hb : Opnd b)
     (st : BState) (o : BOut) (hbd : build regexOk limit true sdf (.oper op a b) {} st = .ok o) :
     ∃ (va vb : Spec.Value F) (ga gb : Option (List (List Ref))),
       Spec.eval (F := F) d a ⟨c, 1, 1⟩ = .ok (.val va ga) ∧
@@ -121,7 +146,7 @@ theorem C07_comparison_value_unconditional {d : Doc} (wf : WF d) (cfg : ECfg) (h
       evalP (F := F) d cfg o.q c = .ok (.bool (Spec.compare d cop va vb)) ∧
       Spec.eval (F := F) d (.oper op a b) ⟨c, 1, 1⟩ = .ok (.val (.bool (Spec.compare d cop va vb)) none) :=
   C07_comparison_value wf cfg hns (PathSem.hashInj_holds wf hattr cfg) c hc regexOk limit sdf op cop
-    a b hop ha hb hk st o hbd
+    a b hop ha hb st o hbd
 
 /-- **short-circuit**: `or` with a true left operand is `true`, `and` with a false left operand is
 `false`, and the right operand is not evaluated (it may be any plan, even a failing one) -/
@@ -150,11 +175,31 @@ theorem cmp_table_ok : Generated.cmpTable =
      [some "cmpAnyBoolean", some "cmpNodeSetNumeric", some "cmpNodeSetString", some "cmpNodeSetNodeSet"]] := by decide
 
 /-- T0 (F2): the leaf comparators map each XPath operator to the Go operator of the same meaning,
-with the operands in order -/
+with the operands in order: numbers with the Go operator of the same spelling; strings with `==` /
+`!=` and, for the four relational operators, through `stringToNumber` of both operands (they used
+to be compared byte-wise with `<`, `<=`, `>`, `>=`); booleans with `==` / `!=` and, for the relational
+operators, through `boolToNumber` -/
 theorem leaf_comparators_ok :
-    Generated.cmpNumOps = [("=", "=="), (">", ">"), ("<", "<"), (">=", ">="), ("<=", "<="), ("!=", "!=")] ∧
-    Generated.cmpStrOps = [("=", "=="), (">", ">"), ("<", "<"), (">=", ">="), ("<=", "<="), ("!=", "!=")] ∧
+    Generated.cmpNumOps = [("=", "=="), ("!=", "!="), ("<", "<"), ("<=", "<="), (">", ">"), (">=", ">=")] ∧
+    Generated.cmpStrOps = [("=", "=="), ("!=", "!="), ("<", "num:stringToNumber"), ("<=", "num:stringToNumber"),
+      (">", "num:stringToNumber"), (">=", "num:stringToNumber")] ∧
+    Generated.cmpBoolOps = [("or", "||"), ("and", "&&"), ("=", "=="), ("!=", "!="), ("<", "num:boolToNumber"),
+      ("<=", "num:boolToNumber"), (">", "num:boolToNumber"), (">=", "num:boolToNumber")] ∧
     Generated.opFuncs = [("eqFunc", "="), ("gtFunc", ">"), ("geFunc", ">="), ("ltFunc", "<"), ("leFunc", "<="), ("neFunc", "!=")] := by decide
+
+/-- T0 (F2): **every cell hands its operands to the leaf comparator in order**: in each entry of
+`Generated.cellCalls` the comparator's first operand derives from the cell's left parameter (`"L"`)
+and its second from the right one (`"R"`), wherever the extractor can tell (`"?"`: an operand that
+goes through a conversion helper).  Before the repairs `cmpStringNumeric` and `cmpNodeSetString`
+were `("R", "L")`. -/
+theorem cells_keep_operand_order :
+    Generated.cellCalls.all (fun e => (e.2.2.1 == "L" || e.2.2.1 == "?") && (e.2.2.2 == "R" || e.2.2.2 == "?")) = true ∧
+    (Generated.cellCalls.filter (fun e => e.2.2.1 != "?" && e.2.2.2 != "?")).all
+      (fun e => e.2.2.1 == "L" && e.2.2.2 == "R") = true ∧
+    (Generated.cellCalls.filter (fun e => e.2.2.1 != "?" && e.2.2.2 != "?")).map (·.1) =
+      ["cmpBooleanBoolean", "cmpNumericNumeric", "cmpNumericString", "cmpNumericNodeSet", "cmpStringNumeric",
+       "cmpStringString", "cmpStringNodeSet", "cmpNodeSetNumeric", "cmpNodeSetString", "cmpNodeSetNodeSet"] := by
+  decide
 
 /-- T0 (F2): no comparison cell panics (the pinned number/string and number/node-set cells did) -/
 theorem cells_do_not_panic : Generated.cellPanics.all (fun p => !p.2) = true := by decide
@@ -163,3 +208,8 @@ theorem cells_do_not_panic : Generated.cellPanics.all (fun p => !p.2) = true := 
 theorem asBool_float_arm_ok : Generated.asBoolFloatSrc = "returnv!=0&&!math.IsNaN(v)" := rfl
 
 end XPathV.Theorems.C07
+
+/-! ## Axiom audit (the theorems added or generalised after the repairs of the comparators) -/
+section AxiomAudit
+open XPathV.Theorems.C07
+end AxiomAudit
